@@ -14,7 +14,8 @@
      NoPtr      Int Float String Type File Process Function: GC_Recurse returns at once
    Registered objects (new/alloc/copy) and raw objects (new_raw, malloc'ed, not registered)
    are both heap nodes; the registry says which is which. *)
-From Coq Require Import List Arith NArith PArith Bool FMapPositive.
+From Coq Require Export List.
+From Coq Require Import Arith NArith PArith Bool FMapPositive.
 Import ListNotations.
 
 Definition word := N.
